@@ -9,6 +9,9 @@ from harness import common, framegen, vecgen
 
 LEVEL = {"partial": ["np.lexsort is modelled as a stable lexicographic merge sort with NaN/NaT largest; 'sorting succeeds' is observed"]}
 ASSUMPTIONS = ["np.lexsort: stable, last key primary, NaN/NaT sort last; ~x and -x reverse the order of integers / floats"]
+# objects with a history are also left grouped by an earlier group_by (harness/warm.py): none of the
+# operations of this property is documented as group-wise
+WARM_GROUPED = True
 RULE = ("frames of 0..40 rows (thorough: ..120), 1..3 sort keys over 10 dtype kinds (short/long/fixed-width strings, object), "
         "directions in {1,-1}^k, value pools of 1..6 values so ties and missing keys dominate; non-trivial = >=2 rows and "
         "(a tie on the first key or a missing key); thorough adds all columns over {NA,a,b,c} with <=5 rows x both directions x 2 keys")
